@@ -78,12 +78,21 @@ def _run_chunk(args):
     fn, warm, payloads, timeout, fork = args
     out = []
     if warm is not None and payloads:
+        # warming runs in this long-lived process: bound it with a repeating alarm (code that never returns must
+        # not hang the whole check; the runs themselves are bounded by the wall budget of their forked child)
+        def _alarm(signum, frame):
+            raise TimeoutError("warm-up exceeded its wall budget")
+        old_handler = signal.signal(signal.SIGALRM, _alarm)
+        signal.setitimer(signal.ITIMER_REAL, max(float(timeout), 30.0), 2.0)
         try:
             warm(payloads[0][1])
         except BaseException:
             out_err = traceback.format_exc()[-2000:]
             # warming is an optimisation only; report but continue
             sys.stderr.write("warm-up failed: " + out_err + "\n")
+        finally:
+            signal.setitimer(signal.ITIMER_REAL, 0)
+            signal.signal(signal.SIGALRM, old_handler)
     for index, payload in payloads:
         t0 = time.monotonic()
         if fork:
